@@ -1510,7 +1510,7 @@ def _inline_one(fn, refnames, params):
       in_S = {id(n) for n in ast.walk(S)}
       cands = []
       for t in sorted({n.id for n in ast.walk(chain) if isinstance(n, ast.Name) and isinstance(n.ctx, ast.Store)}):
-        if t in refnames or t in params or t.startswith('__') or t in nested_names or t in comp_targets or store_count.get(t, 0) < 2:
+        if t in refnames or t in params or (t.startswith('__') and not t.startswith('__t_')) or t in nested_names or t in comp_targets or store_count.get(t, 0) < 2:
           continue
         occ = [n for n in own if isinstance(n, ast.Name) and n.id == t]
         if all((id(n) in in_chain and isinstance(n.ctx, ast.Store)) or (id(n) in in_S and isinstance(n.ctx, ast.Load)) for n in occ) \
